@@ -60,7 +60,8 @@ def relevant(ob, job, pid):
 def check_property(pid, tier="quick", only_jobs=None, keep=False, seed=0):
     t0 = time.time()
     jobs_all = load_jobs()
-    jobs = [j for j in jobs_all if pid in j["props"]
+    # jobs marked wip are under construction: runnable with `xv job`, never part of a check
+    jobs = [j for j in jobs_all if pid in j["props"] and not j.get("wip")
             and (tier == "thorough" or j.get("tier", "quick") == "quick")]
     if only_jobs:
         jobs = [j for j in jobs if j["name"] in only_jobs]
@@ -108,7 +109,7 @@ def check_property(pid, tier="quick", only_jobs=None, keep=False, seed=0):
         exempt = []
         for ex in j.get("exempt", []):
             rx = re.compile(ex["match"])
-            exempt += [o for o in r.obligations if rx.search(o.name)]
+            exempt += [o for o in r.obligations if rx.search(o.name) or rx.search(o.desc)]
         exempt_names = set(o.name for o in exempt)
         rel = [o for o in r.obligations if relevant(o, j, pid) and o.name not in exempt_names]
         if len(rel) < j.get("min_obligations", 1):
@@ -158,7 +159,7 @@ def check_property(pid, tier="quick", only_jobs=None, keep=False, seed=0):
                         "case_subset_note": (j.get("cases_quick_note") if (tier == "quick" and j.get("cases_quick")) else None),
                         "verdicts_reused_from_memo": bool(r.cached),
                         "exempted_obligations": [{"match": ex["match"], "reason": ex["reason"],
-                                                  "count": len([o for o in r.obligations if re.search(ex["match"], o.name)])}
+                                                  "count": len([o for o in r.obligations if re.search(ex["match"], o.name) or re.search(ex["match"], o.desc)])}
                                                  for ex in j.get("exempt", [])],
                         "functions": j.get("functions", []),
                         "obligations": len(rel), "discharged": len(ok),
